@@ -70,6 +70,7 @@ static void check_case(vg::Src& s, vh::Ctx& c)
     vs::g_tr.reset();
     FlowOpts o;
     o.grid.max_side = c.arg > 0 ? static_cast<size_t>(c.arg) : 12;
+    o.grid.large_side = c.arg >= 16 ? 72 : 40;  // ~3% large grids
     o.grid.min_side = 2;
     o.grid.mesh_max_side = 7;
     o.grid.profile_max = 60;
